@@ -173,13 +173,13 @@ instance (d : Nat) (tr : TimedTrace) (k : Nat) (dl : Ev) : Decidable (TimerAt d 
 
 /-- RangeWithInterval (`operator_creation.go:245-265`): `|b-a|` values from `a` towards `b`, the
     k-th not before `k+1` periods, then completion (or completion after cancellation). -/
-def RangeAt (a b : Int) (p : Nat) (tr : TimedTrace) (k : Nat) (dl : Ev) : Prop :=
+def RangeAt (a b : Int) (step p : Nat) (tr : TimedTrace) (k : Nat) (dl : Ev) : Prop :=
   match dl.n with
-  | .next v => k < (b - a).natAbs ∧ v = (if a ≤ b then a + (k : Int) else a - (k : Int)) ∧ tr.sub + (k + 1) * p ≤ dl.t0
-  | .complete => k = (b - a).natAbs ∨ CancelledBy tr dl.t0
+  | .next v => k < rangeCount a b step ∧ v = rangeVal a b step k ∧ tr.sub + (k + 1) * p ≤ dl.t0
+  | .complete => k = rangeCount a b step ∨ CancelledBy tr dl.t0
   | _ => False
 
-instance (a b : Int) (p : Nat) (tr : TimedTrace) (k : Nat) (dl : Ev) : Decidable (RangeAt a b p tr k dl) := by
+instance (a b : Int) (step p : Nat) (tr : TimedTrace) (k : Nat) (dl : Ev) : Decidable (RangeAt a b step p tr k dl) := by
   unfold RangeAt; split <;> infer_instance
 
 /-- ThrottleTime (`operator_transformations.go:829-855`): what passes is a source notification, in
@@ -314,7 +314,7 @@ def OpAt (cfg : Cfg) (tr : TimedTrace) (k : Nat) (dl : Ev) : Prop :=
   | .interval => IntervalAt cfg.d tr k dl
   | .intervalWithInitial => IwiAt cfg.d2 cfg.d tr k dl
   | .timer => TimerAt cfg.d tr k dl
-  | .rangeWithInterval => RangeAt cfg.a cfg.b cfg.d tr k dl
+  | .rangeWithInterval => RangeAt cfg.a cfg.b cfg.step cfg.d tr k dl
   | .throttleTime => ThrottleAt cfg.d tr k dl
   | .sampleTime => SampleAt cfg.d tr k dl
   | .bufferWithTime => BufferAt none cfg.xorder cfg.d tr k dl
